@@ -118,14 +118,19 @@ impl<F: Fn(pipe::SimplexDirection, usize) + Send + Sync> LeftPipe<F> {
             return Err(e);
         }
 
-        if let Some(c) = self
-            .shared
-            .udp_connections
-            .lock()
-            .unwrap()
-            .get_mut(&forwarder::UdpDatagramMeta::from(meta))
-        {
-            c.register_outgoing_packet()
+        let key = forwarder::UdpDatagramMeta::from(meta);
+        match self.shared.udp_connections.lock().unwrap().get_mut(&key) {
+            Some(c) => c.register_outgoing_packet(),
+            None => {
+                // the flow expired while its outbound socket was being opened: release the socket
+                self.shared
+                    .forwarder_shared
+                    .on_connection_closed(&key.reversed());
+                return Err(io::Error::new(
+                    io::ErrorKind::TimedOut,
+                    "Connection expired before it was established",
+                ));
+            }
         }
         Ok(())
     }
@@ -262,11 +267,13 @@ impl<F: Fn(pipe::SimplexDirection, usize) + Send + Sync> DuplexPipe<F> {
             Err(Either::Left((e, _))) | Err(Either::Right((e, _))) => Err(e),
         }
     }
+}
 
-    fn on_timer_tick(&mut self) {
-        let last_unexpired_timestamp = Instant::now() - self.timeout;
+impl<F: Send + Sync> UdpPipeShared<F> {
+    fn on_timer_tick(&self, timeout: Duration) {
+        let last_unexpired_timestamp = Instant::now() - timeout;
 
-        let mut connections = self.left_pipe.shared.udp_connections.lock().unwrap();
+        let mut connections = self.udp_connections.lock().unwrap();
         let expired: Vec<_> = connections
             .iter()
             .filter(|(_, conn)| conn.last_activity < last_unexpired_timestamp)
@@ -276,10 +283,7 @@ impl<F: Fn(pipe::SimplexDirection, usize) + Send + Sync> DuplexPipe<F> {
         for (meta, id) in expired {
             connections.remove(&meta);
             // `on_connection_closed` takes the peer-to-client orientation
-            self.right_pipe
-                .shared
-                .forwarder_shared
-                .on_connection_closed(&meta.reversed());
+            self.forwarder_shared.on_connection_closed(&meta.reversed());
             log_id!(debug, id, "Connection expired: {:?}", meta);
         }
     }
@@ -290,10 +294,18 @@ impl<F: Fn(pipe::SimplexDirection, usize) + Send + Sync> datagram_pipe::DuplexPi
     for DuplexPipe<F>
 {
     async fn exchange(&mut self) -> io::Result<()> {
+        let shared = self.left_pipe.shared.clone();
+        let timeout = self.timeout;
+
+        // The timer runs beside the two directions. They must not be dropped and started over
+        // on a tick: that would abandon whatever they are in the middle of, e.g. a flow recorded
+        // in the table whose outbound socket is still being opened.
+        let exchange = self.exchange_once();
+        futures::pin_mut!(exchange);
         loop {
-            match tokio::time::timeout(self.timeout / 4, self.exchange_once()).await {
-                Ok(x) => return x,
-                Err(_) => self.on_timer_tick(),
+            tokio::select! {
+                x = &mut exchange => return x,
+                _ = tokio::time::sleep(timeout / 4) => shared.on_timer_tick(timeout),
             }
         }
     }
